@@ -194,7 +194,7 @@ func (m *c03ActionModel) locate(x *c03Interp, st *c03State, obj *c03V, vt types.
 		if !types.Identical(c03Deref(f.Type()), m.osmNT) {
 			continue
 		}
-		if v.K == c03KNil || (v.K != c03KPtr && v.K != c03KStruct) {
+		if v.K == c03KNil || (v.K != c03KPtr && v.K != c03KStruct && v.K != c03KInit) || st.Zero(v) == triT {
 			continue
 		}
 		for j := 0; j < osmST.NumFields(); j++ {
@@ -219,6 +219,9 @@ func (m *c03ActionModel) locate(x *c03Interp, st *c03State, obj *c03V, vt types.
 				return "", fmt.Sprintf("<%s> is stored into OSM.%s, which is tagged %q (and written back as <%s>)", label, g.Name(), xf.Name, xf.Name), rawF
 			case !types.Identical(c03ElemType(xf.Var.Type()), c03Deref(vt)):
 				return "", fmt.Sprintf("<%s> is decoded into %s but OSM.%s holds %s", label, c03Short(c03Deref(vt)), g.Name(), c03Short(c03ElemType(xf.Var.Type()))), rawF
+			}
+			if why := c03ActionAccumulates(x, st, rv, f, g, v, gv, label); why != "" {
+				return "", why, rawF
 			}
 			return f.Name() + "." + g.Name(), "", rawF
 		}
